@@ -153,3 +153,40 @@ harness!(name=c16_unchecked_mismatch, prop=C16, mode=R, kind=mustpanic, tier=qui
 });
 harness!(name=c16_knot_4_fill, prop=C16, mode=R, kind=normal, tier=quick, unwind=7, { at_knot_all::<4>(1, true) });
 harness!(name=c16_knot_5_panic, prop=C16, mode=R, kind=normal, tier=thorough, unwind=8, { at_knot_all::<5>(0, true) });
+
+// @bound c16_multi_: M knots and T targets in ONE call (instance), the targets symbolic and in any order (ascending, descending, repeated, in or out of range for Fill / Extrapolate; in range for Panic)
+// @claim c16_multi_: a call with several targets returns one value per target, and position i holds exactly what a call with target i alone returns - so the single-target obligations (c16_knot_, c16_inside_, c16_outside_) carry over to every target of a multi-target call whatever the order of the targets (R; state carried from one target to the next shows up here)
+fn multi<const M: usize, const T: usize>(which: u8, checked: bool) {
+    let (x, y) = knots::<M>();
+    let ts: [f64; T] = inp::arr(210);
+    let (l, r) = (inp::f64(200), inp::f64(201));
+    vassume!(l >= -1.0e6 && l <= 1.0e6 && r >= -1.0e6 && r <= 1.0e6);
+    let mut i = 0;
+    while i < T {
+        vassume!(ts[i] >= -1.0e7 && ts[i] <= 1.0e7);
+        if which == 0 {
+            vassume!(ts[i] >= x[0] && ts[i] <= x[M - 1]);
+        }
+        i += 1;
+    }
+    let v = if checked {
+        interp1d_linear(&x, &y, &ts, mode(which, l, r))
+    } else {
+        interp1d_linear_unchecked(&x, &y, &ts, mode(which, l, r))
+    };
+    vassert!(v.len() == T, "{} targets, {} results", T, v.len());
+    let mut i = 0;
+    while i < T {
+        let alone = call(&x, &y, ts[i], which, l, r, checked);
+        vassert!(v[i] == alone, "target {} of {}: {:e} in the joint call, {:e} alone", i, T, v[i], alone);
+        i += 1;
+    }
+}
+harness!(name=c16_multi_3_t2_fill, prop=C16, mode=R, kind=normal, tier=quick, unwind=6, { multi::<3, 2>(1, false) });
+harness!(name=c16_multi_3_t2_extra, prop=C16, mode=R, kind=normal, tier=thorough, unwind=6, { multi::<3, 2>(2, true) });
+harness!(name=c16_multi_3_t2_panic, prop=C16, mode=R, kind=normal, tier=quick, unwind=6, { multi::<3, 2>(0, true) });
+harness!(name=c16_multi_2_t3_fill, prop=C16, mode=R, kind=normal, tier=thorough, unwind=6, { multi::<2, 3>(1, true) });
+harness!(name=c16_multi_4_t2_extra, prop=C16, mode=R, kind=normal, tier=thorough, unwind=7, { multi::<4, 2>(2, false) });
+harness!(name=c16_multi_4_t3_panic, prop=C16, mode=R, kind=normal, tier=quick, unwind=7, { multi::<4, 3>(0, false) });
+harness!(name=c16_multi_4_t3_fill, prop=C16, mode=R, kind=normal, tier=thorough, unwind=7, { multi::<4, 3>(1, true) });
+harness!(name=c16_multi_5_t3_extra, prop=C16, mode=R, kind=normal, tier=thorough, unwind=8, { multi::<5, 3>(2, true) });
